@@ -10,6 +10,7 @@ import (
 	"strings"
 	"time"
 
+	"github.com/0chain/common/core/statecache"
 	"github.com/0chain/common/core/util"
 	"github.com/anishathalye/porcupine"
 
@@ -78,6 +79,12 @@ var mapModel = porcupine.Model{
 			return true, renderMap(m)
 		case "iter":
 			return !o.err && o.all == st, st
+		case "mput": // a child trie merged back: its one insert takes effect atomically at the merge, or the merge is rejected
+			if !o.found {
+				return true, st
+			}
+			m[i.k] = i.v
+			return true, renderMap(m)
 		}
 		return false, st
 	},
@@ -156,6 +163,21 @@ func ExecSched(sc sim.Script) *sim.Outcome {
 					in = hin{op: "iter"}
 					c, _, err := content(t.mpt)
 					out = hout{all: renderMap(c), err: err != nil}
+				case "mchild": // open a transaction trie on the shared trie, insert, merge it back
+					in = hin{op: "mput", k: op.P, v: string(op.V)}
+					cdb := util.NewLevelNodeDB(util.NewMemoryNodeDB(), t.mpt.GetNodeDB(), false)
+					c := util.NewMerklePatriciaTrie(cdb, util.Sequence(t.ver), t.mpt.GetRoot(), statecache.NewEmpty())
+					_, ierr := c.Insert(util.Path(op.P), val(op.V))
+					var merr error
+					if ierr == nil {
+						merr = t.mpt.MergeMPTChanges(c)
+					}
+					out = hout{found: ierr == nil && merr == nil}
+				case "validate":
+					record = false
+					t.mpt.Validate()
+					t.mpt.GetNodeDB()
+					t.mpt.GetVersion()
 				case "changes":
 					record = false
 					t.mpt.GetChanges()
@@ -218,7 +240,7 @@ func ExecSched(sc sim.Script) *sim.Outcome {
 	}
 	for _, h := range hist {
 		for _, o := range h {
-			if in := o.Input.(hin); in.op == "ins" || in.op == "del" {
+			if in := o.Input.(hin); in.op == "ins" || in.op == "del" || in.op == "mput" {
 				nmut++
 			}
 		}
